@@ -120,6 +120,24 @@ func checkC08(c *Ctx, r *Report) {
 	// ---- R1
 	for _, f := range c.FuncsNamed(proxyPkg + ".removeHopByHopHeaders") {
 		have := constStringsIn(f)
+		// the table may live in a package-level variable: its elements are stored by the package initialiser
+		readsGlobal := false
+		eachInstr(f, func(in ssa.Instruction) {
+			if u, ok := in.(*ssa.UnOp); ok {
+				if _, isG := u.X.(*ssa.Global); isG {
+					if _, isSl := u.Type().Underlying().(*types.Slice); isSl {
+						readsGlobal = true
+					}
+				}
+			}
+		})
+		if readsGlobal {
+			if initFn := c.SSAPkg[proxyPkg].Func("init"); initFn != nil {
+				for k := range constStringsIn(initFn) {
+					have[k] = true
+				}
+			}
+		}
 		for _, h := range hopByHopRef {
 			r.Check(have[h], "C08.R1", "hop-by-hop table contains "+h, c.Pos(f.Pos()), "deleted", "hop-by-hop header "+h+" is not removed: it is forwarded in both directions")
 		}
